@@ -222,6 +222,46 @@ def apply_R16(chunk, loop_idx, log, where):
     log.add('R16', where, hdr, new + ' ... } }')
 
 
+def apply_R17(chunk, log, where, count=None):
+    """R17: `RECV.and_then(|PAT| BODY)` -> `match RECV { Ok(PAT) => BODY, Err(e_) => Err(e_) }` and
+    `RECV.map(|PAT| BODY)` -> `match RECV { Ok(PAT) => Ok(BODY), Err(e_) => Err(e_) }` for a Result-valued receiver that is a
+    method call on `self` (the definition of Result::and_then / Result::map with the closure called in place; the closures
+    capture `&mut self`, which the verifier does not support). Applied from the last occurrence to the first."""
+    n = 0
+    while True:
+        t = chunk.text()
+        src = rsscan.Source('<chunk>', t)
+        occ = [m for m in re.finditer(r'\.\s*(and_then|map)\s*\(\s*\|([^|]*)\|\s*', t) if src.is_code(m.start())]
+        if not occ:
+            break
+        m = occ[-1]
+        kind, pat = m.group(1), m.group(2).strip()
+        q = t.index('(', m.start())
+        c = src.match_brace(q)
+        # receiver: the last `self.method(` whose closing parenthesis is directly in front of this `.and_then`
+        recv = None
+        for r in re.finditer(r'\bself\s*\.\s*\w+\s*\(', t[:m.start()]):
+            if not src.is_code(r.start()):
+                continue
+            rq = r.end() - 1
+            rc = src.match_brace(rq)
+            if t[rc + 1:m.start()].strip() == '':
+                recv = r.start()
+        if recv is None:
+            raise ExtractError('R17: receiver of .%s not recognised in %s' % (kind, where))
+        recv_text = re.sub(r'\s+', ' ', t[recv:m.start()]).replace(' .', '.').strip()
+        if kind == 'and_then':
+            chunk.replace_span(c, c + 1, ', Err(e_) => Err(e_) }', 'R17')
+            chunk.replace_span(recv, m.end(), 'match %s { Ok(%s) => ' % (recv_text, pat), 'R17')
+        else:
+            chunk.replace_span(c, c + 1, '), Err(e_) => Err(e_) }', 'R17')
+            chunk.replace_span(recv, m.end(), 'match %s { Ok(%s) => Ok(' % (recv_text, pat), 'R17')
+        log.add('R17', where, '%s.%s(|%s| ..)' % (recv_text, kind, pat), 'match %s { Ok(%s) => .., Err(e_) => Err(e_) }' % (recv_text, pat))
+        n += 1
+    if count is not None and n != count:
+        raise ExtractError('rule R17 expected %d rewrites in %s, did %d' % (count, where, n))
+
+
 def apply_regex_rule(chunk, rule, pattern, repl, log, where, count=None, flags=re.S):
     """Generic logged regex rewrite on code positions (single pass: matches are found in the text as it
     is and replaced from the last to the first, so a replacement is never rescanned).
@@ -541,6 +581,8 @@ def build_fn_chunk(chunk, fspec, fnkey, built, cover, relwhere):
         kind = r[0]
         if kind == 'R1':
             apply_R1(chunk, r[1], log, fnkey)
+        elif kind == 'R17':
+            apply_R17(chunk, log, fnkey, r[1] if len(r) > 1 else None)
         elif kind == 'R2':
             apply_R2(chunk, r[1], log, fnkey)
         elif kind == 'R6':
